@@ -474,6 +474,81 @@ fn run_slice_free(n: usize, t: usize, fails: &[u8], stop_after: usize, salt: usi
     }
 }
 
+/// Stress aimed at the claim step: the workers rendezvous in `new_thread_state` and in `consume` so
+/// that they come back to the claim loop together, in particular when exactly one item is left.
+/// A claim that is not one atomic bounds-checked increment hands an index >= len to one of them.
+/// Returns Err((round, what)) on the first round in which the property fails.
+fn run_slice_race(n: usize, t: usize, rounds: usize) -> Result<(), (usize, String)> {
+    const RPAD: usize = 8; // every worker can overshoot at most once: indices stay below n + t
+    let spin = |cond: &dyn Fn() -> bool, micros: u64| {
+        let t0 = std::time::Instant::now();
+        let mut k = 0u32;
+        while !cond() {
+            k += 1;
+            if k % 64 == 0 && t0.elapsed() > Duration::from_micros(micros) {
+                break;
+            }
+            std::hint::spin_loop();
+        }
+    };
+    // wall-clock budget: on a heavily loaded machine a round (T + 1 thread spawns) can take many
+    // milliseconds; fewer rounds then, never a missed case deadline
+    let t_begin = std::time::Instant::now();
+    for round in 0..rounds {
+        if round >= 50 && t_begin.elapsed() > Duration::from_secs(6) {
+            break;
+        }
+        let mut items = (0..n + RPAD).map(|idx| Item { idx, count: 0 }).collect::<Vec<_>>();
+        let started = &AtomicUsize::new(0);
+        let arrived = &AtomicUsize::new(0);
+        let calls = &AtomicUsize::new(0);
+        let spin = &spin;
+        let result = parallel::in_parallel_with_slice(
+            &mut items[..n],
+            Some(t),
+            move |id| {
+                started.fetch_add(1, Ordering::SeqCst);
+                spin(&|| started.load(Ordering::SeqCst) >= t, 300);
+                St { id, cnt: 0 }
+            },
+            move |item: &mut Item, st: &mut St, _left: &AtomicIsize, _stop: &AtomicBool| {
+                item.count += 1;
+                calls.fetch_add(1, Ordering::SeqCst);
+                st.cnt += 1;
+                let c = arrived.fetch_add(1, Ordering::SeqCst) + 1;
+                let target = (((c + t - 1) / t) * t).min(n);
+                spin(&|| arrived.load(Ordering::SeqCst) >= target, 100);
+                Ok::<(), usize>(())
+            },
+            || Some(Duration::from_micros(10)),
+            |st: St| st.cnt,
+        );
+        let calls = calls.load(Ordering::SeqCst);
+        if let Some(i) = items[n..].iter().position(|i| i.count != 0) {
+            return Err((round, format!("out-of-range index {} consumed (len {n}, {calls} consume calls)", n + i)));
+        }
+        if let Some(i) = items[..n].iter().position(|i| i.count != 1) {
+            return Err((round, format!("item {i} consumed {} times", items[i].count)));
+        }
+        if calls != n {
+            return Err((round, format!("{calls} consume calls for {n} items")));
+        }
+        match result {
+            Ok(rs) if rs.len() == t && rs.iter().sum::<usize>() == n => {}
+            other => return Err((round, format!("result {other:?}"))),
+        }
+    }
+    Ok(())
+}
+
+fn prop_slicerace(c: &Case) -> Verdict {
+    let (n, t, rounds) = (f_u64(c, 1) as usize, (f_u64(c, 2) as usize).max(1), f_u64(c, 3) as usize);
+    match run_slice_race(n, t, rounds) {
+        Ok(()) => Verdict::ok(true, "race-ok"),
+        Err((round, what)) => Verdict::fail("slice-race", format!("round {round}: {what}")),
+    }
+}
+
 fn slice_args(c: &Case) -> (usize, usize, Vec<u8>) {
     (f_u64(c, 1) as usize, (f_u64(c, 2) as usize).max(1), f_str(c, 3).to_vec())
 }
@@ -997,8 +1072,22 @@ fn gen(rng: &mut Rng, n: usize) -> Vec<Case> {
     for (nn, cs, fl, take) in [(0, 1, 0, 5), (1, 1, 0, 5), (5, 2, 0, 5), (5, 5, 1, 9), (6, 3, 2, 2), (9, 4, 0, 0), (3, 0, 1, 1), (40, 7, 1, 3)] {
         out.push(vec![tag("eager"), num(nn), num(cs), num(fl), num(take)]);
     }
+    out.push(vec![tag("slicerace"), num(1), num(2), num(1500)]);
+    out.push(vec![tag("slicerace"), num(3), num(2), num(1500)]);
     // ---- random mixture
+    let race_every = if thorough { 400 } else { 90 };
     while out.len() < n {
+        if out.len() % race_every == race_every - 1 {
+            // claim-window stress, spread over the run (each case costs about a second)
+            let t = rng.range(2, 4) as usize;
+            let items = match rng.below(4) {
+                0 => 1,
+                1 => t + 1, // one item left after a full rendezvous
+                _ => rng.range(1, 4) as usize,
+            };
+            out.push(vec![tag("slicerace"), num(items), num(t), num(rng.range(1500, 3000))]);
+            continue;
+        }
         match rng.below(20) {
             0..=4 => {
                 // inorder: a permutation of 0..k, locally or fully shuffled; sometimes an error, a
@@ -1111,6 +1200,7 @@ fn imp(c: &Case) -> String {
         b"slicefree" => imp_slicefree(c),
         b"pipe" => imp_pipe(c),
         b"eager" => imp_eager(c),
+        b"slicerace" => "race".into(), // judged by prop() only: nothing schedule-independent to compare
         _ => "?".into(),
     }
 }
@@ -1122,6 +1212,7 @@ fn prop(c: &Case) -> Verdict {
         b"slicefree" => prop_slicefree(c),
         b"pipe" => prop_pipe(c),
         b"eager" => prop_eager(c),
+        b"slicerace" => prop_slicerace(c),
         _ => Verdict::ok(false, "?"),
     }
 }
